@@ -233,4 +233,33 @@ def oracle(impl, o):
                     stack -= e[1] - 1
             if not ok or (wevents and stack != 1):
                 fails.append({'key': 'walk-postorder', 'what': 'walk applies a node function before its children were produced'})
+        # re-entrancy: a leaf / node function that itself traverses (the same treespec and a second one) must not disturb the
+        # traversal it runs inside: same result as the un-nested call, and the inner results are right too
+        if spec.num_leaves and len(fails) == 0:
+            enc = lambda x: render(u.enc_obj(x))        # noqa: E731
+            flat = outcome(lambda: enc(spec.traverse(leaves)))
+            small = optree.tree_structure((0, [1, {'k': 2}]))
+            inner_results = []
+
+            def nested_leaf(leaf):
+                inner_results.append(enc(spec.traverse(leaves)))
+                inner_results.append(repr(small.traverse([7, 8, 9], lambda n: n, lambda x: x + 1)))
+                return leaf
+
+            def nested_node(node):
+                inner_results.append(repr(small.traverse([1, 2, 3])))
+                return node
+            for name, call in (('traverse', lambda: spec.traverse(leaves, nested_node, nested_leaf)),
+                               ('walk', lambda: spec.walk(leaves, None, lambda leaf: (inner_results.append(enc(spec.walk(leaves))),
+                                                                                      inner_results.append(repr(small.walk([7, 8, 9]))), leaf)[-1]))):
+                inner_results.clear()
+                got = outcome(lambda: enc(call()))
+                if flat[0] == 'ok' and got != flat:
+                    fails.append({'key': f'{name}-reentrant', 'what': f'{name} whose callbacks call {name} again returns something else than '
+                                  f'the un-nested call', 'want': str(flat)[:200], 'got': str(got)[:200]})
+                want_inner = {flat[1], repr((8, [9, {'k': 10}])), repr((1, [2, {'k': 3}])), repr((7, [8, {'k': 9}]))} if flat[0] == 'ok' else None
+                if want_inner is not None and any(r not in want_inner for r in inner_results):
+                    bad = [r for r in inner_results if r not in want_inner][0]
+                    fails.append({'key': f'{name}-reentrant-inner', 'what': f'a {name} run inside a callback of another {name} returned a wrong '
+                                  f'tree', 'got': bad[:200]})
     return fails
